@@ -25,6 +25,7 @@ META = {
     "assumptions": [],
     "not_decided": "soundness inside imbl / tokio / smallvec / arrayvec / pin-project-lite",
 }
+META["explanation"] += ' R02.1 (closed test and waker push in one critical section) is evaluated here as part of R20.6: a waker parked after close() is never drained and keeps a state -> waker -> task -> subscriber -> state cycle alive.'
 
 RAW = (r"^std::mem::forget$|ManuallyDrop::<.*>::(new|take|drop|into_inner)$|Box::<.*>::(into_raw|from_raw|leak|into_non_null|from_non_null)$|"
        r"Arc::<.*>::(into_raw|from_raw|increment_strong_count|decrement_strong_count)$|Rc::<.*>::(into_raw|from_raw)$|Weak::<.*>::(into_raw|from_raw)$|"
@@ -77,6 +78,10 @@ def run(ctx):
     if len(wakes) == 1:
         c02.r02_4(ctx, wakes[0])
         c02.r02_5(ctx, wakes[0])
+    # ... and a waker is only ever stored while the state is open: the closed test and the push are one critical section,
+    # otherwise a waker parked after close() is never drained (state -> waker -> task -> subscriber -> state cycle)
+    from . import leaf
+    leaf.check_critical_section(ctx, "R02.1")
     r20_7(ctx)
 
 
